@@ -259,13 +259,11 @@ From JK Require Import Proofs.GoTieBuyModel.
 
 (* ... and the model's BuyStorage step follows that closed form on the reads taken from its own state, with the answers
    its bank gives to the four transfers for the amounts the model computes: same refusals, same panics, success
-   exactly when every transfer is answered (the two hour counts are assumed to fit int64: they are a duration in
-   nanoseconds divided by 3.6e12) *)
+   exactly when every transfer is answered (that the two hour counts fit int64 - they are an int64 count of
+   nanoseconds divided by 3.6e12 - is proved, Proofs/HoursRange.v) *)
 Theorem C04_code_tie_model_buy_storage_follows :
   forall e m s fa acc_exists,
     0 < b_days m -> b_for m = Some fa ->
-    in_int64 (base_hours m) = true ->
-    (forall pi, the_plan s fa = Some pi -> in_int64 (prorated_hours e pi) = true) ->
     let '(okc, okf, okp, okr) := oracles e m s in
     let pl := the_plan s fa in
     buy_storage e m s
